@@ -37,9 +37,20 @@ def build_harness(pkgs=("sim",)):
     except OSError:
         pass
     bins = {}
+    modfile = []
+    if REPO != "/repo":
+        # development aid (seeded changes are tried on a scratch copy of the repository, never in /repo): an alternative
+        # go.mod whose replace directive points at VERIF_REPO. Registered checks always build from /repo.
+        alt = os.path.join(OUT, "bin", "go.alt.mod")
+        with open(os.path.join(HARNESS, "go.mod")) as f:
+            txt = f.read().replace("=> /repo", "=> " + REPO)
+        with open(alt, "w") as f:
+            f.write(txt)
+        shutil.copyfile(os.path.join(HARNESS, "go.sum"), os.path.join(OUT, "bin", "go.alt.sum"))
+        modfile = ["-modfile=" + alt]
     for p in pkgs:
         b = os.path.join(OUT, "bin", p + ".test")
-        cmd = ["go1.26.8", "test", "-tags", "verif", "-c", "-o", b, "./" + p]
+        cmd = ["go1.26.8", "test"] + modfile + ["-tags", "verif", "-c", "-o", b, "./" + p]
         r = subprocess.run(cmd, cwd=HARNESS, env=GOENV, capture_output=True, text=True)
         if r.returncode != 0:
             log("BUILD-FAILED", p)
